@@ -17,7 +17,7 @@ func init() {
 		Explanation: "Decides structural necessary conditions of C20: (R-C20-1) store-owned bytes (the result of invoking a Secret) never reach reflect.ValueOf -- i.e. caller-owned memory -- without passing a copying operation (bytes.Clone, slices.Clone, append onto nil, conversion to string); read-only consumers (json.Unmarshal, UnmarshalBinary) are allowed; " +
 			"(R-C20-2) Fields.Secrets and Fields.Apply compute the full name with the same callee over the same two fields (path.Join(f.prefix, fi.secretName)), the name declared is the name looked up; (R-C20-3) the loop of Apply has no early exit and every non-nil field error flows into the returned errors.Join; " +
 			"(R-C20-4) the set of plain types accepted by parseFields equals the case set of the assignment switch in apply, every other non-JSON, non-unmarshaler type is rejected with an error, an empty tag name is rejected before the field is recorded, the pointer-to-struct test precedes every reflective access, and no tagged field yields ErrNoFields; " +
-			"(R-C20-7) the struct-tag plumbing keeps no package-level state (a parse result is bound to the struct value it was parsed from; only the reflect.Type constants and ErrNoFields are shared) and the json verb is recognised from the tag pieces after the name, never from the name itself; (R-C20-5) NewStore applies every parsed struct before it returns successfully and the struct-tagged names are merged into the declared list; (R-C20-6) string fields are filled by a []byte->string conversion and Secret fields receive the handle itself; (R-C20-8) the handle given to a field reads the entry stored under its name at each call; (R-C20-9) parseFields looks up the tag of every visible field and a field whose tag is present is appended or makes it return an error. (R-C20-10) the json verb and nothing else selects JSON decoding in fieldInfo.apply (with the verb no direct assignment is reachable, without it no JSON decoding); (R-C20-11) while parsing, a reflect call that writes lies past the present edge of the field's tag lookup (untagged fields are never touched).",
+			"(R-C20-7) the struct-tag plumbing keeps no package-level state (a parse result is bound to the struct value it was parsed from; only the reflect.Type constants and ErrNoFields are shared) and the json verb is recognised from the tag pieces after the name, never from the name itself; (R-C20-5) NewStore applies every parsed struct before it returns successfully and the struct-tagged names are merged into the declared list; (R-C20-6) string fields are filled by a []byte->string conversion and Secret fields receive the handle itself; (R-C20-8) the handle given to a field reads the entry stored under its name at each call; (R-C20-9) parseFields looks up the tag of every visible field and a field whose tag is present is appended or makes it return an error. (R-C20-10) the json verb and nothing else selects JSON decoding in fieldInfo.apply (with the verb no direct assignment is reachable, without it no JSON decoding); (R-C20-11) while parsing, a reflect call that writes lies past the present edge of the field's tag lookup (untagged fields are never touched). (R-C20-6, extended) from each type case no successful return is reachable around the reflective Set; (R-C20-9, extended) a walk over the struct's direct fields that does not descend into anonymous fields is a violation.",
 		NotDecided:  "Behaviour over arbitrary run-time struct shapes (reflection); what a user's UnmarshalBinary does with the slice it is handed.",
 		Trusted:     append([]string{"bytes.Clone / slices.Clone / string(b) copy", "BinaryUnmarshaler's contract requires copying"}, commonTrusted...),
 		Assumptions: []string{},
@@ -253,6 +253,16 @@ func runC20(c *eng.Ctx, tier string) {
 						if a == ssa.Value(ja.call) {
 							used = true
 						}
+						// ... or the secret Apply itself looked up under that name
+						if lc, idx := eng.TupleCall(a); lc != nil && idx == 0 && lc.Parent() == fApply {
+							if cal := eng.Callee(&lc.Call); cal != nil && cal.Signature.Recv() != nil && eng.IsNamed(cal.Signature.Recv().Type(), setecPkg, "Store") {
+								for _, la := range lc.Call.Args {
+									if la == ssa.Value(ja.call) {
+										used = true
+									}
+								}
+							}
+						}
 					}
 				}
 			})
@@ -334,46 +344,96 @@ func runC20(c *eng.Ctx, tier string) {
 				c.Bad("R-C20-3", fApply, fApply.Pos(), "result of Fields.Apply", "errors.Join of all field errors", "not an errors.Join")
 			} else {
 				_, phis := eng.PhiLeaves(joined)
-				isAppend := func(x ssa.Instruction) bool {
-					args, ok := eng.BuiltinCall(x, "append")
-					if !ok {
-						return false
+				// the calls whose failure is a failure of the field: the
+				// assignment, and a lookup made for it in Apply itself
+				fcalls := []*ssa.Call{acall}
+				eng.Instrs(fApply, func(in ssa.Instruction) {
+					if call, ok := in.(*ssa.Call); ok && call != acall && loop.InLoop(call.Block()) && errResultIndexOfCall(call) >= 0 {
+						if cal := eng.Callee(&call.Call); cal != nil && cal.Signature.Recv() != nil && eng.IsNamed(cal.Signature.Recv().Type(), setecPkg, "Store") {
+							fcalls = append(fcalls, call)
+						}
 					}
-					// the appended element wraps the apply error
-					pa := eng.Path{Blocks: []*ssa.BasicBlock{x.Block()}}
-					elems, _ := pa.SliceElems(args[1])
-					wraps := false
-					for _, e := range elems {
-						for _, lf := range errorLeaves(pa, e) {
-							if eng.Same(lf, acall) {
+				})
+				for _, fc := range fcalls {
+					fc := fc
+					ev := saveErr(fc)
+					atHeader := func(x ssa.Instruction) bool { return x.Block() == loop.Header || eng.IsReturn(x) }
+					// a merge of error values that, on the ways from this
+					// failed call, can only carry its error
+					carries := func(v ssa.Value) bool {
+						if eng.Same(v, ev) {
+							return true
+						}
+						ph, isPhi := eng.Origin(v).(*ssa.Phi)
+						if !isPhi {
+							return false
+						}
+						some := false
+						for k, e := range ph.Edges {
+							if eng.Same(e, ev) {
+								some = true
+								continue
+							}
+							pred := ph.Block().Preds[k]
+							if pred == fc.Block() {
+								return false
+							}
+							if hit, _ := eng.Search(fApply, fc, eng.AssumeErr(ev, false), atHeader, func(x ssa.Instruction) bool { return x.Block() == pred }); hit != nil {
+								return false
+							}
+						}
+						return some
+					}
+					failed := func(b *ssa.BasicBlock, k int) bool {
+						ifi, ok := b.Instrs[len(b.Instrs)-1].(*ssa.If)
+						if !ok {
+							return true
+						}
+						x, isNil, isN := eng.CondOf(ifi.Cond, k == 0).NilCheck()
+						if !isN || !carries(x) {
+							return true
+						}
+						return !isNil
+					}
+					isAppend := func(x ssa.Instruction) bool {
+						args, ok := eng.BuiltinCall(x, "append")
+						if !ok {
+							return false
+						}
+						// the appended element wraps the error
+						pa := eng.Path{Blocks: []*ssa.BasicBlock{x.Block()}}
+						elems, _ := pa.SliceElems(args[1])
+						wraps := false
+						for _, e := range elems {
+							for _, lf := range errorLeaves(pa, e) {
+								if carries(lf) {
+									wraps = true
+								}
+							}
+							if carries(e) {
 								wraps = true
 							}
 						}
-						if eng.Same(e, acall) {
-							wraps = true
+						if !wraps {
+							return false
 						}
-					}
-					if !wraps {
-						return false
-					}
-					for ph := range phis {
-						for _, e := range ph.Edges {
-							if e == ssa.Value(x.(*ssa.Call)) {
-								return true
+						for ph := range phis {
+							for _, e := range ph.Edges {
+								if e == ssa.Value(x.(*ssa.Call)) {
+									return true
+								}
 							}
 						}
+						return false
 					}
-					return false
+					hit, path := eng.Search(fApply, fc, failed, isAppend, atHeader)
+					c.Check(hit == nil, "R-C20-3", fApply, fc.Pos(), "error of "+eng.CallStr(&fc.Call), "every field failure is appended to the slice Apply returns joined (none goes unreported)", func() string {
+						if hit == nil {
+							return ""
+						}
+						return "next field / return reached with the error unrecorded: " + p.PathStr(path)
+					}())
 				}
-				hit, path := eng.Search(fApply, acall, eng.AssumeErr(acall, false), isAppend, func(x ssa.Instruction) bool {
-					return x.Block() == loop.Header || eng.IsReturn(x)
-				})
-				c.Check(hit == nil, "R-C20-3", fApply, acall.Pos(), "error of "+eng.CallStr(&acall.Call), "every field failure is appended to the slice Apply returns joined (none goes unreported)", func() string {
-					if hit == nil {
-						return ""
-					}
-					return "next field / return reached with the error unrecorded: " + p.PathStr(path)
-				}())
 			}
 		}
 	}
@@ -1107,4 +1167,16 @@ func c20ParseReadOnly(c *eng.Ctx, parse *ssa.Function) {
 	} else {
 		c.Ok("R-C20-11", parse, parse.Pos(), "reflect calls while parsing", "inspection only")
 	}
+}
+
+// errResultIndexOfCall: the index of the error result of the call's
+// signature (-1 if it has none).
+func errResultIndexOfCall(call *ssa.Call) int {
+	res := call.Call.Signature().Results()
+	for i := res.Len() - 1; i >= 0; i-- {
+		if eng.IsErrorType(res.At(i).Type()) {
+			return i
+		}
+	}
+	return -1
 }
